@@ -117,7 +117,9 @@ func (c *Client) Do(rq Req) *Result {
 		rq.Method = "GET"
 		res.Req.Method = "GET"
 	}
-	var body io.Reader
+	// a body-less request gets an (empty) body of a type net/http cannot rewind: it goes out
+	// byte-identical, but the transport never silently re-sends it after a connection error
+	var body io.Reader = emptyBody{}
 	if rq.Body != nil {
 		body = bytes.NewReader(rq.Body)
 	}
@@ -200,6 +202,10 @@ func (c *Client) Do(rq Req) *Result {
 	}
 	return res
 }
+
+type emptyBody struct{}
+
+func (emptyBody) Read([]byte) (int, error) { return 0, io.EOF }
 
 // Get shorthand
 func (c *Client) Get(addr, host, uri string, hdr ...string) *Result {
